@@ -29,7 +29,7 @@ CONTAINERS = (".repeat", ".include")
 
 def plan(tier, seed):
     n = 16 if tier == "quick" else 48
-    total = 3000 if tier == "quick" else 60000
+    total = 3000 if tier == "quick" else 200000
     return [{"part": i, "parts": n, "seed": seed, "tier": tier, "count": total // n} for i in range(n)]
 
 
